@@ -1581,7 +1581,10 @@ class SourceCatalog:
         nan_mask = (np.isnan(centroid_quad[:, 0])
                     | np.isnan(centroid_quad[:, 1]))
         if np.any(nan_mask):
-            centroid_quad[nan_mask] = self.cutout_centroid[nan_mask]
+            cutout_centroid = self.cutout_centroid
+            if self.isscalar:
+                cutout_centroid = cutout_centroid[np.newaxis, :]
+            centroid_quad[nan_mask] = cutout_centroid[nan_mask]
 
         return centroid_quad
 
